@@ -12,14 +12,18 @@ from common import (HangFound, ToolError, cfg_text, ensure_built, load_known, lo
 CODE_FLAGS = {"IntentsPerHash": "TRUE", "OpenUnderGuard": "TRUE"}
 
 MC_BASE = dict(CODE_FLAGS, NK=2, NT=2, OpsPerThread=1, ProgKeys="{1, 2}", ProgContents='{"A", "B"}', WalN=10000,
-               WithReads="TRUE", WithCleanup="FALSE", WithCkpt="TRUE", WithGuard="FALSE")
+               WithReads="TRUE", WithCleanup="FALSE", WithCkpt="TRUE", WithGuard="FALSE", WithFail="FALSE")
 
 
 def mc_configs(tier):
     q = [dict(MC_BASE), dict(MC_BASE, WithCleanup="TRUE", WithCkpt="FALSE", ProgKeys="{1}", ProgContents='{"A", "C"}'),
          dict(MC_BASE, WalN=1, ProgKeys="{1}", WithReads="FALSE")]
+    # a commit whose rename fails after its intent was registered (fault x concurrency): the reverted commit gives back its own
+    # protection only
+    q.append(dict(MC_BASE, WithFail="TRUE", ProgKeys="{1}", WithReads="FALSE", WithCkpt="FALSE"))
     if tier == "quick":
         return q
+    q.append(dict(MC_BASE, WithFail="TRUE", NT=3, ProgKeys="{1}", ProgContents='{"A"}', NK=2, WithReads="FALSE", WithCkpt="FALSE"))
     return q + [dict(MC_BASE, NT=3, ProgKeys="{1}", WithCkpt="FALSE"),
                 dict(MC_BASE, OpsPerThread=2, ProgKeys="{1}", WithCkpt="FALSE"),
                 dict(MC_BASE, NT=3, ProgKeys="{1}", ProgContents='{"A", "C"}', WithCleanup="TRUE", WithCkpt="FALSE", WithReads="FALSE")]
@@ -36,7 +40,9 @@ def run_mc(tier, invariants, liveness=False, prop=None):
         cfgs = cfgs[1:]
     for c in cfgs:
         extra = ["VIEW View"]
-        out = tlc("MCConc", cfg_text(c, invariants=invariants, extra=extra).replace("CHECK_DEADLOCK FALSE", "CHECK_DEADLOCK TRUE"),
+        # C07 speaks of error-free programs: not an invariant of the configurations with a commit that is made to fail
+        invs_c = [i for i in invariants if not (c.get("WithFail") == "TRUE" and i == "Inv_C07")]
+        out = tlc("MCConc", cfg_text(c, invariants=invs_c, extra=extra).replace("CHECK_DEADLOCK FALSE", "CHECK_DEADLOCK TRUE"),
                   workers=8, timeout=2400, heap="12g", name="mcc")
         r = parse_mc(out)
         if r["error"] or not r["finished"]:
@@ -135,6 +141,16 @@ def build_scenarios(prop, tier, rnd):
             for a, b in ((fin("A"), ab("B")), (fin("B"), ab("B")), (fin("G"), ab("A")), (ab("A"), ab("B"))):
                 add(init, [a, b], dfs)
             add(init, [fin("B"), ab("A"), [{"op": "get", "k": 1}]], dfs)
+        # a commit that FAILS after its intent was registered (its rename into cas/ fails) next to another commit, a removal, a
+        # read of the same key: the reverted commit changes nothing and takes nobody else's protection away
+        pf = lambda c: [{"op": "putfail", "k": 1, "c": c}]
+        for other in ([{"op": "put", "k": 1, "c": "B"}], [{"op": "put", "k": 1, "c": "A"}], [{"op": "del", "k": 1}], [{"op": "get", "k": 1}]):
+            for init in INITS[:2]:
+                add(init, [pf("B"), other], dfs)
+        for c in ("A", "B"):
+            thr = [[{"op": "put", "k": 1, "c": c}], pf(c), [{"op": "del", "k": 2}]]
+            add([{"op": "put", "k": 2, "c": c}], thr, {"kind": "dfs", "bound": 3, "runs": 200 if q else 3000})
+            add([{"op": "put", "k": 2, "c": c}], thr, {"kind": "random", "runs": 60 if q else 800, "seed": seed()})
         for other in ([{"op": "put", "k": 1, "c": "B"}], [{"op": "del", "k": 1}], [{"op": "get", "k": 1}], [{"op": "put", "k": 1, "c": "A"}]):
             for init in INITS[:2]:
                 add(init, [[{"op": "abort", "k": 1, "c": "B"}, {"op": "abort", "k": 1, "c": "A"}], other], dfs)
@@ -284,7 +300,15 @@ def run_conc_check(prop, tier, replay=None, merge=False):
     knowns = {}
     drift = 0
     badruns = set()
+    beyond = {}
     for f in fails:
+        # observations beyond the listed properties: notes, never verdicts
+        for tg in f["tags"]:
+            if tg.startswith("BEYOND:"):
+                beyond[tg] = beyond.get(tg, 0) + 1
+        f["tags"] = [tg for tg in f["tags"] if not tg.startswith("BEYOND:")]
+        if not f["tags"]:
+            continue
         sid, _, sched = f["sid"].partition("#")
         sid = sid.strip('"')
         badruns.add(f["sid"])
@@ -312,6 +336,8 @@ def run_conc_check(prop, tier, replay=None, merge=False):
         nviol += 1
     for t in mc["violated"]:
         log(f"[{prop}] NOTE model-level property {t} violated in MCConc")
+    for tg, c in sorted(beyond.items()):
+        print(f"NOTE beyond the listed properties: {tg} ({c} recorded cases)")
     if drift:
         print(f"NOTE drift: {drift} recorded steps are not steps of CasConc (no property conjunct failed there)")
     runs = count_runs(traces)
